@@ -226,7 +226,17 @@ def path_facts(path):
     out = []
     for node, label in path:
         if label is not None and label[0] not in ("iter", "except"):
-            out.extend(facts(label[0], label[1]))
+            test = label[0]
+            # a test written through a named boolean is the test itself (see _inline_named_tests)
+            fn = test
+            while fn is not None and not isinstance(fn, (ast.FunctionDef, ast.AsyncFunctionDef)):
+                fn = getattr(fn, "_parent", None)
+            if fn is not None:
+                try:
+                    test = _inline_named_tests(test, fn)
+                except Exception:
+                    test = label[0]
+            out.extend(facts(test, label[1]))
     return out
 
 
@@ -304,15 +314,15 @@ def expr_guards(node, stop=None):
 
 
 def _stores(fn):
-    """name -> number of places of `fn` (nested scopes included, to be safe) that bind it"""
+    """name -> positions (line, column) of the places of `fn` (nested scopes included, to be safe) that bind it"""
     cached = getattr(fn, "_sa_stores", None)
     if cached is None:
         cached = {}
         for x in ast.walk(fn):
             if isinstance(x, ast.Name) and isinstance(x.ctx, (ast.Store, ast.Del)):
-                cached[x.id] = cached.get(x.id, 0) + 1
+                cached.setdefault(x.id, []).append((x.lineno, x.col_offset))
             elif isinstance(x, ast.arg):
-                cached[x.arg] = cached.get(x.arg, 0) + 1
+                cached.setdefault(x.arg, []).append((getattr(x, "lineno", 0), getattr(x, "col_offset", 0)))
         try:
             fn._sa_stores = cached
         except Exception:
@@ -343,13 +353,18 @@ def _inline_named_tests(test, fn, depth=0):
         return new
     if isinstance(test, ast.Name) and isinstance(test.ctx, ast.Load):
         st = _stores(fn)
-        if st.get(test.id) != 1:
+        if len(st.get(test.id, ())) != 1:
             return test
+        here = (getattr(test, "lineno", 0), getattr(test, "col_offset", 0))
         for a in ast.walk(fn):
             if isinstance(a, ast.Assign) and len(a.targets) == 1 and isinstance(a.targets[0], ast.Name) and a.targets[0].id == test.id:
                 v = a.value
-                if isinstance(v, (ast.Compare, ast.BoolOp, ast.Call)) or (isinstance(v, ast.UnaryOp) and isinstance(v.op, ast.Not)):
-                    if all(st.get(n.id, 0) <= 1 for n in ast.walk(v) if isinstance(n, ast.Name)):
+                there = (a.lineno, a.col_offset)
+                if there < here and (isinstance(v, (ast.Compare, ast.BoolOp, ast.Call)) or (isinstance(v, ast.UnaryOp) and isinstance(v.op, ast.Not))):
+                    # what the boolean was computed from still has that value at the test: nothing binds its names between the two places
+                    # (a re-binding further down - in the branch the test guards, say - comes too late to matter, also on the next turn of a
+                    # loop, where the boolean is computed afresh first)
+                    if all(not any(there < pos_ < here for pos_ in st.get(n.id, ())) for n in ast.walk(v) if isinstance(n, ast.Name)):
                         return _inline_named_tests(v, fn, depth + 1)
                 return test
     return test
